@@ -454,8 +454,19 @@ impl SecretKey {
         if let SecretParams::Encrypted(enc) = &self.secret_params {
             let unlocked = enc.unlock(password, &self.details, Some(self.packet_header.tag()))?;
             self.secret_params = SecretParams::Plain(unlocked);
+            self.update_packet_length()?;
         }
 
+        Ok(())
+    }
+
+    /// Keeps the stored packet header in sync after the secret key material was re-encoded.
+    fn update_packet_length(&mut self) -> Result<()> {
+        let len = self.write_len().try_into()?;
+        if let crate::types::PacketLength::Fixed(packetlen) = self.packet_header.packet_length_mut()
+        {
+            *packetlen = len;
+        }
         Ok(())
     }
 
@@ -499,6 +510,7 @@ impl SecretKey {
             &self.details,
             Some(self.packet_header.tag()),
         )?);
+        self.update_packet_length()?;
 
         Ok(())
     }
@@ -515,8 +527,19 @@ impl SecretSubkey {
         if let SecretParams::Encrypted(enc) = &self.secret_params {
             let unlocked = enc.unlock(password, &self.details, Some(self.packet_header.tag()))?;
             self.secret_params = SecretParams::Plain(unlocked);
+            self.update_packet_length()?;
         }
 
+        Ok(())
+    }
+
+    /// Keeps the stored packet header in sync after the secret key material was re-encoded.
+    fn update_packet_length(&mut self) -> Result<()> {
+        let len = self.write_len().try_into()?;
+        if let crate::types::PacketLength::Fixed(packetlen) = self.packet_header.packet_length_mut()
+        {
+            *packetlen = len;
+        }
         Ok(())
     }
 
@@ -558,6 +581,7 @@ impl SecretSubkey {
             &self.details,
             Some(self.packet_header.tag()),
         )?);
+        self.update_packet_length()?;
 
         Ok(())
     }
